@@ -43,7 +43,7 @@ def graph_units(tier):
 
 def build_fresh(units, tag):
     """an independent compilation: its own workspace copy and target directory"""
-    c = corpus.Corpus(tag, units, extra_prelude="pub struct Opaque;")
+    c = corpus.Corpus(tag, units, extra_prelude="pub struct Opaque; " + c03.EXPR_PRELUDE)
     shutil.rmtree(c.dir, ignore_errors=True)
     if os.path.exists(c.cache):
         os.remove(c.cache)
